@@ -338,6 +338,7 @@ type Stream struct {
 	SyncWrites bool
 	// OnEvent, when set, is called with every entry appended to Events.
 	OnEvent func(string)
+	wdeadline time.Time
 }
 
 // NewStreamPair creates a connected pair: a is the dialer's end (outbound),
@@ -362,7 +363,13 @@ func (s *Stream) Conn() network.Conn                 { return s.conn }
 func (s *Stream) Stat() network.Stats                { return network.Stats{Direction: s.dir} }
 func (s *Stream) Scope() network.StreamScope         { return &network.NullScope{} }
 func (s *Stream) SetDeadline(t time.Time) error      { return s.SetReadDeadline(t) }
-func (s *Stream) SetWriteDeadline(t time.Time) error { return nil }
+// SetWriteDeadline bounds writes that block (SyncWrites: until the remote has read the bytes).
+func (s *Stream) SetWriteDeadline(t time.Time) error {
+	s.mu.Lock()
+	s.wdeadline = t
+	s.mu.Unlock()
+	return nil
+}
 func (s *Stream) SetReadDeadline(t time.Time) error {
 	s.mu.Lock()
 	s.rdl = t
@@ -448,22 +455,27 @@ func (s *Stream) Read(p []byte) (int, error) {
 }
 
 func (s *Stream) Write(p []byte) (int, error) {
+	// The liveness check and the log entry are one step, as are the flag and the log entry in Reset: the event list is then a
+	// linearisation (a write that got past the check is listed before a reset that came concurrently).
 	s.mu.Lock()
 	dead := s.closed || s.resetLoc
-	s.mu.Unlock()
-	if dead {
-		return 0, ErrReset
-	}
 	s.out.mu.Lock()
-	if s.out.reset || s.out.eof {
+	if dead || s.out.reset || s.out.eof {
 		s.out.mu.Unlock()
+		s.mu.Unlock()
 		return 0, ErrReset
 	}
 	s.out.buf = append(s.out.buf, p...)
 	s.out.nbytes += len(p)
 	s.out.mu.Unlock()
+	ev := fmt.Sprintf("write:%d", len(p))
+	s.Events = append(s.Events, ev)
+	f := s.OnEvent
+	s.mu.Unlock()
 	s.out.signal()
-	s.event(fmt.Sprintf("write:%d", len(p)))
+	if f != nil {
+		f(ev)
+	}
 	if s.SyncWrites {
 		for {
 			s.out.mu.Lock()
@@ -475,7 +487,24 @@ func (s *Stream) Write(p []byte) (int, error) {
 			if left == 0 || gone {
 				break
 			}
-			<-s.out.drained
+			s.mu.Lock()
+			dl := s.wdeadline
+			s.mu.Unlock()
+			if dl.IsZero() {
+				<-s.out.drained
+				continue
+			}
+			d := time.Until(dl)
+			if d <= 0 {
+				return 0, timeoutErr{}
+			}
+			tm := time.NewTimer(d)
+			select {
+			case <-s.out.drained:
+				tm.Stop()
+			case <-tm.C:
+				return 0, timeoutErr{}
+			}
 		}
 	}
 	return len(p), nil
@@ -512,6 +541,8 @@ func (s *Stream) Close() error {
 func (s *Stream) Reset() error {
 	s.mu.Lock()
 	s.resetLoc = true
+	s.Events = append(s.Events, "reset")
+	f := s.OnEvent
 	s.mu.Unlock()
 	for _, h := range []*halfPipe{s.in, s.out} {
 		h.mu.Lock()
@@ -520,7 +551,9 @@ func (s *Stream) Reset() error {
 		h.signal()
 		h.signalDrained()
 	}
-	s.event("reset")
+	if f != nil {
+		f("reset")
+	}
 	return nil
 }
 
